@@ -49,6 +49,12 @@ def _m2():
     cfg = mastercfg.m2()
     cfg['cellmonitors'] = [cellmon.mon_c03]
     cfg['monitors'] = [mastermon.mon_c03_zk]
+    # the records carry the node's boot time, as published by a real node;
+    # an admin changing partition / traits leaves it alone
+    from mc.vclock import BASE
+    for spec in cfg['servers'].values():
+        for var in spec['variants']:
+            var['up_since'] = int(BASE) - 3600
     cfg['templates']['once'] = {'memory': '2M', 'cpu': '2%', 'disk': '2M',
                                 'affinity': 'o', 'schedule_once': True}
     cfg['events'] = mastercfg.ev(
